@@ -66,7 +66,9 @@ Oracles (independent of the Coq model and of the code under test; all walk point
     ``index_oracle(tree)``    C02: index groups exact, public lookups exact
     ``sibling_oracle(tree)``  C03: no two children of one parent with equal data_id
     ``refusal_oracle(step)``  C13: after a library refusal the observable state is unchanged
-    ``effect_oracle(step)``   C04: documented effect + frame condition (see `Spec` below)
+    ``effect_oracle(step, world)``  C04: documented effect + frame condition (harness/mut_spec.py, an independent
+                              specification of every op on nested lists)
+    (the three tree oracles take an optional second argument `world` so that messages name nodes by relative id)
 ``run_group(group, oracles)`` replays one exhaustive group (setup + every alternative) and returns
 ``(coq term CAlts, observation, [Run])``; ``first(iterable)``; ``World`` (rel/raw/live_node/obs...) is the
 implementation side of a running history (use ``replay(..., keep_world=True).world`` to probe the live trees
@@ -75,7 +77,14 @@ Generators: ``gen_shapes(shapes, ...)`` (explicit deeper shapes, EXTRA_SHAPES), 
 nodes, as (setup, alternatives) groups), ``gen_random(rng, n_ops, ...)`` (mostly-valid histories),
 ``gen_malformed(rng, n_ops)`` (invalid `before`, colliding ids, foreign targets, moves into the own
 branch; removed nodes are never referenced).  ``shrink_candidates(hist)``: drop ops, drop setup nodes.
-``CORPUS``: minimal witnesses of the defects repaired by fixes/D*.diff (each fails on the unchanged code).
+``gen_addtree()``: two-tree worlds x every add(tree)/copy_to argument.  ``setup_ops(nodes, ti, typed)``: the add ops that
+build a forest given in build.py NODE format.  ``Gen``: the stateful generator behind gen_random (``Gen(rng).step()``).
+``compact_universe(hist)``, ``renumber(op, dropped_ids)``: shrinking helpers.
+``CORPUS``: minimal witnesses of the defects repaired by fixes/D*.diff (each fails on the unchanged code) and regression
+histories (ids starting with R-).
+A property module is a thin wrapper: ``descs`` yields histories / groups from the generators, ``run`` calls ``replay`` or
+``run_group`` with the oracles it owns, uses ``coq_case``/``coq_alts`` as Coq input for `CaseMut.run_mut` (or feeds
+``Run.coq`` to its own case function) and ``Run.fails`` as oracle verdict; see harness/props/C04.py.
 """
 from __future__ import annotations
 
@@ -711,7 +720,7 @@ def coq_alts(setup: Run, alts) -> str:
 # ---------------------------------------------------------------------------
 # Oracles C01-C03, C13 (by identity, independent of model and of the code's own self-check)
 # ---------------------------------------------------------------------------
-def _reach(t):
+def _reach(t, nid=H.nid):
     """(nodes in pre-order, problems) by an identity walk of `_children`."""
     root = t._root
     seen = {}
@@ -724,14 +733,14 @@ def _reach(t):
             return
         for c in (n._children or []):
             if id(c) in seen:
-                probs.append(f"node {H.nid(c)} is reachable twice")
+                probs.append(f"node {nid(c)} is reachable twice")
                 continue
             seen[id(c)] = c
             order.append(c)
             if c._parent is not n:
-                probs.append(f"node {H.nid(c)}: _parent is not the node whose child list holds it")
+                probs.append(f"node {nid(c)}: _parent is not the node whose child list holds it")
             if any(a is c for a in anc):
-                probs.append(f"node {H.nid(c)} is its own ancestor")
+                probs.append(f"node {nid(c)} is its own ancestor")
                 continue
             rec(c, anc + [c])
 
@@ -740,23 +749,24 @@ def _reach(t):
 
 
 def wf_oracle(t, w=None):
+    nid = w.rel if w is not None else H.nid
     """C01.  Returns None or the first problem."""
     from nutree.tree import _DELETED_TAG
-    order, probs = _reach(t)
+    order, probs = _reach(t, nid)
     if probs:
         return "wf: " + probs[0]
     root = t._root
     for c in order:
         if c._tree is not t or c.tree is not t:
-            return f"wf: reachable node {H.nid(c)} does not report the tree as owner"
+            return f"wf: reachable node {nid(c)} does not report the tree as owner"
         if c._data is _DELETED_TAG:
-            return f"wf: reachable node {H.nid(c)} was unregistered (zombie)"
+            return f"wf: reachable node {nid(c)} was unregistered (zombie)"
         pp = c.parent
         if (pp is None) != (c._parent is root) or (pp is not None and pp is not c._parent):
-            return f"wf: node {H.nid(c)}.parent disagrees with the child list it is in"
+            return f"wf: node {nid(c)}.parent disagrees with the child list it is in"
         n_occ = sum(1 for x in (c._parent._children or []) if x is c)
         if n_occ != 1:
-            return f"wf: node {H.nid(c)} occurs {n_occ} times in its parent's child list"
+            return f"wf: node {nid(c)} occurs {n_occ} times in its parent's child list"
     if t.count != len(order) or len(t) != len(order):
         return f"wf: count {t.count} != reachable {len(order)}"
     nids = [c.node_id for c in order]
@@ -765,9 +775,9 @@ def wf_oracle(t, w=None):
     reach = {id(c) for c in order}
     for k, v in t._node_by_id.items():
         if id(v) not in reach:
-            return f"wf: registered node {H.nid(v)} is not reachable"
+            return f"wf: registered node {nid(v)} is not reachable"
         if v._node_id != k:
-            return f"wf: registry key of node {H.nid(v)} is not its node_id"
+            return f"wf: registry key of node {nid(v)} is not its node_id"
     unordered = list(t.iterator(H.nutree.IterMethod.UNORDERED))
     if sorted(id(x) for x in unordered) != sorted(reach):
         return "wf: iterator(UNORDERED) is not the reachable set"
@@ -775,8 +785,9 @@ def wf_oracle(t, w=None):
 
 
 def index_oracle(t, w=None):
+    nid = w.rel if w is not None else H.nid
     """C02: `_nodes_by_data_id` groups and the public lookups are exact."""
-    order, _ = _reach(t)
+    order, _ = _reach(t, nid)
     by = {}
     for n in order:
         by.setdefault(n._data_id, []).append(n)
@@ -789,7 +800,7 @@ def index_oracle(t, w=None):
         if got is None:
             return f"index: key {d!r} missing"
         if sorted(id(x) for x in got) != sorted(id(x) for x in ns):
-            return f"index: group {d!r} is {[H.nid(x) for x in got]} expected {[H.nid(x) for x in ns]}"
+            return f"index: group {d!r} is {[nid(x) for x in got]} expected {[nid(x) for x in ns]}"
         pub = t.find_all(data_id=d)
         if sorted(id(x) for x in pub) != sorted(id(x) for x in ns):
             return f"index: find_all(data_id={d!r}) wrong"
@@ -799,24 +810,25 @@ def index_oracle(t, w=None):
         return f"index: count_unique {t.count_unique} != {len(by)}"
     for n in order:
         if t.find_first(node_id=n.node_id) is not n:
-            return f"index: find_first(node_id) of node {H.nid(n)} wrong"
+            return f"index: find_first(node_id) of node {nid(n)} wrong"
         grp = by[n._data_id]
         if sorted(id(x) for x in n.get_clones(add_self=True)) != sorted(id(x) for x in grp):
-            return f"index: get_clones(add_self) of node {H.nid(n)} wrong"
+            return f"index: get_clones(add_self) of node {nid(n)} wrong"
         if sorted(id(x) for x in n.get_clones()) != sorted(id(x) for x in grp if x is not n):
-            return f"index: get_clones of node {H.nid(n)} wrong"
+            return f"index: get_clones of node {nid(n)} wrong"
         if n.is_clone() != (len(grp) > 1):
-            return f"index: is_clone of node {H.nid(n)} wrong"
+            return f"index: is_clone of node {nid(n)} wrong"
     return None
 
 
 def sibling_oracle(t, w=None):
+    nid = w.rel if w is not None else H.nid
     """C03: no parent (root included) holds two children with one data_id."""
-    order, _ = _reach(t)
+    order, _ = _reach(t, nid)
     for p in [t._root] + order:
         ids = [c._data_id for c in (p._children or [])]
         if len(set(ids)) != len(ids):
-            return f"sibling: two children of {H.nid(p)} share a data_id"
+            return f"sibling: two children of {nid(p)} share a data_id"
     return None
 
 
@@ -1017,7 +1029,7 @@ class Gen:
         if k == "meta":
             if not ids:
                 return
-            mo = rng.choice([["set", "k", 1], ["set", "k", None], ["set", "j", "v"], ["clear", None], ["clear", "k"],
+            mo = rng.choice([["set", "k", 1], ["set", "k", None], ["set", "j", "v"], ["clear", None], ["clear", "k"], ["set", "", 2], ["clear", ""],
                              ["update", {"z": 1, "k": 2}, False], ["update", {"z": 3}, True], ["update", {}, True]])
             return self.do(["meta", ti, rng.choice(ids), mo])
         if k == "filter":
@@ -1215,7 +1227,7 @@ def gen_shapes(shapes, *, labelings=("distinct", "equal"), typed=(False,), famil
             mk_univ, labeler = LABELINGS[lname]
             for ty in typed:
                 univ = mk_univ(n)
-                nodes = B.shape_to_nodes(shape, (lambda i, d, s: (labeler(i, d, s)[0], "k1" if ty else None, labeler(i, d, s)[2])))
+                nodes = B.shape_to_nodes(shape, (lambda i, d, s: (labeler(i, d, s)[0], ("k1", "k2")[s % 2] if ty else None, labeler(i, d, s)[2])))
                 setup = [["new", ty, None]] + setup_ops(nodes, 0, ty)
                 yield dict(univ=univ, setup=setup, alts=single_ops(nodes, univ, ty, families), label=lname + "/extra", n=n)
 
@@ -1248,7 +1260,7 @@ def gen_exhaustive(nmax, *, labelings=("distinct", "equal", "clones"), typed=(Fa
                 mk_univ, labeler = LABELINGS[lname]
                 for ty in typed:
                     univ = mk_univ(n)
-                    nodes = B.shape_to_nodes(shape, (lambda i, d, s: (labeler(i, d, s)[0], "k1" if ty else None, labeler(i, d, s)[2])))
+                    nodes = B.shape_to_nodes(shape, (lambda i, d, s: (labeler(i, d, s)[0], ("k1", "k2")[s % 2] if ty else None, labeler(i, d, s)[2])))
                     setup = [["new", ty, None]] + setup_ops(nodes, 0, ty)
                     if lname == "clones":
                         # a labeling that collides under one parent is not a constructible tree
@@ -1284,6 +1296,46 @@ def shrink_candidates(hist):
         if any(o is None for o in rest):
             continue
         yield dict(hist, ops=rest)
+    c = compact_universe(hist)
+    if c is not None:
+        yield c
+
+
+def _map_data(op, f):
+    """apply f to every data-universe index an op mentions (a copy of the op)"""
+    op = _copy.deepcopy(op)
+    k = op[0]
+
+    def items(l):
+        return [[f(d), did, items(ch)] for d, did, ch in l]
+
+    if k == "new" and isinstance(op[2], dict):
+        op[2]["raise"] = [f(i) for i in op[2].get("raise", [])]
+    elif k == "add":
+        op[3] = f(op[3])
+    elif k == "short":
+        op[4] = f(op[4])
+    elif k in ("set_data", "rename") and op[3] is not None:
+        op[3] = f(op[3])
+    elif k == "del" and "d" in op[2]:
+        op[2]["d"] = f(op[2]["d"])
+    elif k == "from_dict":
+        op[3] = items(op[3])
+    elif k == "tree_from_dict":
+        op[1] = items(op[1])
+    return op
+
+
+def compact_universe(hist):
+    """The same history over only the data objects it uses (None if nothing can be dropped)."""
+    used = []
+    for op in hist["ops"]:
+        _map_data(op, lambda i: used.append(i) or i)
+    keep = sorted(set(used))
+    if len(keep) == len(hist["univ"]):
+        return None
+    pos = {old: new for new, old in enumerate(keep)}
+    return {"univ": [hist["univ"][i] for i in keep], "ops": [_map_data(op, lambda i: pos[i]) for op in hist["ops"]]}
 
 
 def renumber(op, dropped):
@@ -1340,6 +1392,8 @@ def renumber(op, dropped):
 # Minimal witnesses of repaired defects (each fails an oracle on the unchanged code)
 # ---------------------------------------------------------------------------
 CORPUS: list = [
+ {"id": "D03b", "univ": ["s:a", "s:b", "s:c"], "ops": [["new", False, None], ["add", 0, 0, 0, None, None, None], ["add", 0, 1, 1, None, None, None], ["add", 0, 2, 0, None, None, None], ["add", 0, 0, 2, None, None, None], ["add", 0, 4, 0, None, None, None], ["remove", 0, 5, False, True]]},
+ {"id": "R-meta", "univ": ["s:a"], "ops": [["new", False, None], ["add", 0, 0, 0, None, None, None], ["meta", 0, 1, ["set", "k", 1]], ["meta", 0, 1, ["set", "", 2]], ["meta", 0, 1, ["clear", ""]], ["meta", 0, 1, ["update", {}, True]], ["meta", 0, 1, ["update", {"z": 1}, False]], ["meta", 0, 1, ["set", "z", None]]]},
  {"id": "D70", "univ": ["s:a", "s:b", "s:x", "s:y"], "ops": [["new", False, None], ["new", False, None], ["add", 0, 0, 0, None, None, None], ["add", 0, 0, 1, None, None, None], ["add", 1, 0, 2, None, None, None], ["add", 1, 0, 3, None, None, None], ["addtree", 1, 0, 0, {"n": 4}, None]]},
  {"id": "D48", "univ": ["s:a", "s:b"], "ops": [["new", False, None], ["add", 0, 0, 0, None, None, None], ["from_dict", 0, 1, [[1, None, []], [1, None, []]]]]},
  {
